@@ -22,6 +22,7 @@ type Opts struct {
 	Extensions     bool // set extensions registered in GlobalTypes
 	BigCollections bool // occasionally 9..12 entries (crosses Go's 8-entry map bucket)
 	NoNaN          bool
+	NegZero        bool                              // allow -0.0 (off by default: Merge/Clone drop an implicit-presence -0, an upstream quirk outside the claimed properties)
 	ForceLazy      bool                              // populate lazy fields (and message fields leading to them) with high probability
 	OnlyFields     map[protoreflect.FieldNumber]bool // restrict top-level fields (nil = all)
 }
@@ -66,7 +67,9 @@ func scalar(r *sim.Rng, fd protoreflect.FieldDescriptor, o *Opts) protoreflect.V
 		case 1:
 			return protoreflect.ValueOfFloat32(float32(math.Inf(1)))
 		case 2:
-			return protoreflect.ValueOfFloat32(float32(math.Copysign(0, -1)))
+			if o.NegZero {
+				return protoreflect.ValueOfFloat32(float32(math.Copysign(0, -1)))
+			}
 		}
 		return protoreflect.ValueOfFloat32(float32(r.Intn(2000)-1000) / 8)
 	case protoreflect.DoubleKind:
@@ -76,7 +79,9 @@ func scalar(r *sim.Rng, fd protoreflect.FieldDescriptor, o *Opts) protoreflect.V
 		case 1:
 			return protoreflect.ValueOfFloat64(math.Inf(-1))
 		case 2:
-			return protoreflect.ValueOfFloat64(math.Copysign(0, -1))
+			if o.NegZero {
+				return protoreflect.ValueOfFloat64(math.Copysign(0, -1))
+			}
 		}
 		return protoreflect.ValueOfFloat64(float64(r.Intn(200000)-100000) / 16)
 	case protoreflect.StringKind:
